@@ -181,6 +181,16 @@ func genC04Mixed(g *Gen) any {
 		for i := 0; i < g.Int(8, 16); i++ {
 			sc.Streams = append(sc.Streams, StreamPlan{SizeClass: 1, SizeSeed: g.Rng.Uint64(), ReadBuf: 4096, Up: g.Int(5, 40), Down: g.Int(0, 40)})
 		}
+	} else if sc.PatKey%5 == 1 {
+		// many young streams closed by Cloak: a closing frame carries 1..256 random
+		// bytes and, while its stream has sent fewer than five frames, up to 255
+		// bytes of padding - the reference peer must be able to decode every one of
+		// them (a frame of the full 525 bytes turns up about once in 700 closes)
+		sc.RefServer, sc.CloseEnd = false, true
+		sc.Streams = nil
+		for i := g.Int(60, 160); i > 0; i-- {
+			sc.Streams = append(sc.Streams, StreamPlan{SizeClass: 1, SizeSeed: g.Rng.Uint64(), ReadBuf: 4096, Up: g.Int(0, 40), Down: g.Pick(0, 0, g.Int(1, 40))})
+		}
 	}
 	return sc
 }
@@ -282,6 +292,7 @@ func runC04Mixed(c *Ctx, scAny any) {
 	}
 	closedOK := 0
 	wantClosed := 0
+	closeCalled := map[uint32]time.Duration{} // stream tag -> virtual time of the acceptor's Close
 	// opener side
 	open := func(st *streamState) rwc {
 		if sc.RefServer {
@@ -332,6 +343,11 @@ func runC04Mixed(c *Ctx, scAny any) {
 					b := make([]byte, 16)
 					if n, err := s.Read(b); err == nil {
 						c.Fail("stream-data", "data:excess", "opener read %d bytes beyond what was written", n)
+					} else if at, ok := closeCalled[st.tag]; ok && c.W.Elapsed() > at+500*time.Millisecond {
+						// (no link is stalled here and time passes only when nothing can run: a
+						// closing frame that was sent and decoded ends this Read at the instant of
+						// the Close; later, it was the session's inactivity timer)
+						c.Fail("stream-error", "close-frame-lost", "stream %d: the acceptor's Close was called at %v, the opener's Read only ended at %v (%v): the closing frame did not get through", st.tag, at, c.W.Elapsed(), err)
 					} else {
 						closedOK++
 					}
@@ -366,7 +382,10 @@ func runC04Mixed(c *Ctx, scAny any) {
 					st.upDone = true
 					if sc.CloseEnd {
 						Await(wdone)
-						s.Close()
+						closeCalled[st.tag] = c.W.Elapsed()
+						if err := s.Close(); err != nil {
+							c.Fail("stream-error", "error:close", "stream %d: Close on a healthy session, after %d bytes written by this side: %v", st.tag, st.plan.Down, err)
+						}
 					}
 				}
 			})
